@@ -38,6 +38,7 @@ type scenario struct {
 	ExtraBalance  bool
 	LeakEpochs    [2]int // participation forced to 0.3 inside [from, to)
 	CustomSlashingsVector bool
+	DepositsFromEpoch     int
 }
 
 func (s scenario) String() string {
@@ -142,6 +143,11 @@ func drawScenario(rng *rand.Rand, family string, quick bool, forceLate ...bool) 
 			sc.Epochs = sc.LeakEpochs[1] + 3
 			sc.PBlock = 0.5
 			sc.ForkEpochs = [4]uint64{1, 2, 3, 4}
+			// registry size not a multiple of 4 and deposits arriving while scores are large:
+			// appending to the packed inactivity-score list must not disturb its neighbours
+			sc.Validators = 65 + rng.IntN(3)/2
+			sc.PDeposits = 0.5
+			sc.DepositsFromEpoch = sc.LeakEpochs[0] + 65
 		}
 	case "churn":
 		sc.PDeposits = 0.5
@@ -256,7 +262,7 @@ func runChain(b *fw.B, sc scenario, hooks chainHooks, report func(m *sim.Mismatc
 		if sc.Blobs > 0 {
 			plan.Blobs = rng.IntN(sc.Blobs + 1)
 		}
-		if rng.Float64() < sc.PDeposits {
+		if rng.Float64() < sc.PDeposits && int(epoch) >= sc.DepositsFromEpoch {
 			plan.NewDeposits = 1 + rng.IntN(3)
 			plan.VoteNewEth1 = true
 		}
